@@ -63,6 +63,17 @@ DevEnabled(d, n, o, k, ca) ==
     [] d = "Dev_EmptyQuotesNotContinued" -> ca = "after" /\ k = 0 /\ o # "none"
     [] OTHER -> FALSE
 
+\* the analyser: for any text and cursor a context (or none) whose prefix and suffix reproduce the text
+\* around the cursor.  feat.inside_op: the cursor splits a multi-character operator token.
+AnalyseDevEnabled(d, feat) ==
+  CASE d = "Dev_CursorInsideOperatorToken" -> feat.inside_op
+    [] OTHER -> FALSE
+Analyse(feat, ok) ==
+  /\ name = <<>>
+  /\ \/ ok /\ res' = [ok |-> TRUE, dev |-> ""]
+     \/ \E d \in Deviations : AnalyseDevEnabled(d, feat) /\ ~ok /\ res' = [ok |-> FALSE, dev |-> d]
+  /\ name' = <<"a">> /\ open' = "none"
+
 Names == UNION {[1..k -> Alphabet] : k \in 1..MaxLen}
 
 Init == name = <<>> /\ open = "none" /\ res = [ok |-> TRUE, dev |-> ""]
@@ -73,7 +84,8 @@ Complete(n, o, k, ca) ==
   /\ \/ res' = [ok |-> TRUE, dev |-> ""]
      \/ \E d \in Deviations : DevEnabled(d, n, o, k, ca) /\ res' = [ok |-> FALSE, dev |-> d]
 
-Next == name = <<>> /\ \E n \in Names, o \in Opens, k \in 0..1, ca \in {"no", "after", "closed"} : Complete(n, o, k, ca)
+Next == \/ name = <<>> /\ \E io \in BOOLEAN, ok \in BOOLEAN : Analyse([inside_op |-> io], ok)
+        \/ name = <<>> /\ \E n \in Names, o \in Opens, k \in 0..1, ca \in {"no", "after", "closed"} : Complete(n, o, k, ca)
 Spec == Init /\ [][Next]_vars
 
 (* ---- properties -------------------------------------------------------------------------- *)
